@@ -460,7 +460,10 @@ static void record_grid01(Trace& T, Rng& g, int Nx, int Ny)
 				if(v < lo - slack || v > hi + slack || std::isnan(v))
 					nout++;
 				if(fstyle == 2)
-					bilq = std::max(bilq, quant(v - mag * (al + be * x + ga * y + de * x * y), 64 * EPS * mag * (std::fabs(al) + std::fabs(be * x) + std::fabs(ga * y) + std::fabs(de * x * y))));
+				{	// unit: rounding of the corner ordinates, whose terms are as large as at the far corners of the cell (not as at the query point)
+					double ax = std::max(std::fabs(x0), std::fabs(x1)), ay = std::max(std::fabs(y0), std::fabs(y1));
+					bilq = std::max(bilq, quant(v - mag * (al + be * x + ga * y + de * x * y), 64 * EPS * mag * (std::fabs(al) + std::fabs(be) * ax + std::fabs(ga) * ay + std::fabs(de) * ax * ay)));
+				}
 			}
 			// continuity across the cell's upper edges: approach the shared edge from both sides
 			if(i + 2 < Nx)
